@@ -21,3 +21,8 @@ def run(ctx, name="C04"):
         if r.get("fail"):
             ctx.fail(r["fail"].split("/")[0], "isolation monitor '%s' failed: %s" % (r["fail"], str(r.get("info"))[:500]), case=r)
     ctx.model("Run.RunSession", recs, shard=6)
+    if name == "C04":
+        # whatever a response which races the caller's context leaves behind must not become the outcome of the next call,
+        # to whichever peer it is addressed: the gate-forced interleavings of C02, each followed by a further call
+        import props.C02 as c02
+        c02.gates(ctx, name="C04-gates")
